@@ -72,7 +72,7 @@ def registered(ctx):
     ri = F.fn('core::TracingSecretKey::refresh_id')
     ks = ri.calls(r'TracingSecretKey::is_known$')
     ctx.check(len(ks) == 1, ri.key, 'calls is_known', 'refresh_id no longer checks that the identifier is known', '', ri.where())
-    idp = [pi for pi in range(1, ri.argc + 1) if ri.local_ty(pi) == 'core::UserId']
+    idp = [pi for pi in range(1, ri.argc + 1) if re.match(r"^(&('\w+ )?)?core::UserId$", ri.local_ty(pi))]
     if len(ks) == 1:
         k = ks[0]
         okarg = bool(idp) and any(r[0] == 'param' and r[1] == idp[0] for r in root_descr(ri, k.args[1]))
